@@ -1,4 +1,5 @@
-// Witness generator for C20 (extension health hysteresis), compiled into the real ProxyAgentExt crate next to common.rs.
+// Witness generator for C20 (extension health hysteresis), compiled into the real ProxyAgentExt crate as a child module of
+// service_main.rs (so that the private status-publishing functions of that file can be driven).
 // Oracle = the statement only (no reference to the counters or thresholds of the code):
 //   (H1) the report is Error only if the last >= 20 observations (including the current one) were all failures
 //        -- in particular never directly after a success, and one success always moves the report away from Error;
@@ -8,6 +9,9 @@
 //        ("at most once per 120 repetitions"; the call site uses max = 120).
 // The statement gives no lower bound on how often an unchanged notification must be re-emitted and does not say that Error
 // must eventually be reported, so neither is tested.
+// (H1)/(H2) are checked twice: on the string returned by the automaton, and on what the extension PUBLISHES: the real
+// report_proxy_agent_service_status / report_proxy_agent_aggregate_status (+ extension_substatus) are driven in sequences and the
+// <seq>.status file written after every observation is read back (vxw_c20_published_status below).
 use crate::common::StatusState;
 use crate::service_main::service_state::ServiceState;
 
@@ -278,5 +282,360 @@ fn vxw_c20_service_state() {
             run_notifications(&mut ctx, &seq, max, &format!("keys A,B interleaved; A changes every {} calls, B every {} calls", ka * unit, kb * unit));
         }
     }
+    println!("VXW-DONE {}", ctx.cases);
+}
+
+// ---- the PUBLISHED status ------------------------------------------------------------------------------------------
+// One step = one observation made by the monitor loop of service_main.rs, through the real functions, followed by reading
+// back the <seq>.status file the step wrote. Observations as the statement defines them: the health observation is the
+// probe of the agent's own aggregate status file (readable and reporting the version the extension carries = healthy;
+// missing / unreadable / other version = failed). A report about running the setup tool (whatever its exit status, or not
+// launched at all) does not observe a healthy agent: it counts as a failed observation.
+mod published {
+    use super::{is_error, is_success, Ctx};
+    use crate::common;
+    use crate::constants;
+    use crate::service_main::service_state::ServiceState;
+    use crate::structs::*;
+    use proxy_agent_shared::misc_helpers;
+    use proxy_agent_shared::proxy_agent_aggregate_status::*;
+    use std::ffi::CString;
+    use std::fs;
+    use std::os::raw::c_char;
+    use std::path::{Path, PathBuf};
+
+    extern "C" {
+        fn unshare(flags: i32) -> i32;
+        fn mount(src: *const c_char, target: *const c_char, fstype: *const c_char, flags: std::os::raw::c_ulong, data: *const c_char) -> i32;
+        fn umount2(target: *const c_char, flags: i32) -> i32;
+        fn geteuid() -> u32;
+    }
+
+    const VERSION_IN_EXTENSION: &str = "1.0.30";
+
+    #[derive(Clone, Copy, PartialEq, Debug)]
+    pub enum Obs {
+        InstallExit0,       // `proxy_agent_setup install` ran and exited with 0
+        InstallExit3,       // ... exited with 3
+        InstallNotLaunched, // ... could not be launched (io error)
+        AggMissing,         // the agent's aggregate status file does not exist
+        AggUnreadable,      // ... exists but is not a status document
+        AggOtherVersion,    // ... reports another agent version than the one the extension carries
+        AggMatch,           // ... reports the version the extension carries: the one healthy observation
+    }
+    pub const ALL: [Obs; 7] = [Obs::InstallExit0, Obs::InstallExit3, Obs::InstallNotLaunched, Obs::AggMissing, Obs::AggUnreadable, Obs::AggOtherVersion, Obs::AggMatch];
+    pub const FAILED: [Obs; 6] = [Obs::InstallExit0, Obs::InstallExit3, Obs::InstallNotLaunched, Obs::AggMissing, Obs::AggUnreadable, Obs::AggOtherVersion];
+
+    impl Obs {
+        fn healthy(self) -> bool {
+            self == Obs::AggMatch
+        }
+        fn install(self) -> bool {
+            matches!(self, Obs::InstallExit0 | Obs::InstallExit3 | Obs::InstallNotLaunched)
+        }
+        fn tag(self) -> &'static str {
+            match self {
+                Obs::InstallExit0 => "install-report(exit 0)",
+                Obs::InstallExit3 => "install-report(exit 3)",
+                Obs::InstallNotLaunched => "install-report(setup tool not launched: io error)",
+                Obs::AggMissing => "agent-status-file(missing)",
+                Obs::AggUnreadable => "agent-status-file(unreadable)",
+                Obs::AggOtherVersion => "agent-status-file(other version)",
+                Obs::AggMatch => "agent-status-file(version matches)",
+            }
+        }
+    }
+
+    fn render(seq: &[Obs], upto: usize) -> String {
+        let mut out = String::new();
+        let mut i = 0;
+        while i <= upto && i < seq.len() {
+            let mut j = i;
+            while j + 1 <= upto && j + 1 < seq.len() && seq[j + 1] == seq[i] {
+                j += 1;
+            }
+            if !out.is_empty() {
+                out.push_str(", ");
+            }
+            out.push_str(&format!("{} x{}", seq[i].tag(), j - i + 1));
+            i = j + 1;
+        }
+        out
+    }
+
+    pub struct World {
+        work: PathBuf,
+        status_dir: PathBuf,
+        // Some: the folder the extension reads the agent's aggregate status from is a private bind mount of a temp folder
+        agg_file: Option<PathBuf>,
+        mounted_on: Option<CString>,
+        agg_now: Option<Obs>,
+        spawned: [u32; 3],
+        run_restore_purge: bool,
+        pub unread: u64,
+    }
+
+    fn cstr(p: &Path) -> CString {
+        CString::new(p.to_string_lossy().as_bytes()).unwrap()
+    }
+
+    fn aggregate_doc(version: &str) -> String {
+        let detail = |m: &str| ProxyAgentDetailStatus { status: ModuleState::RUNNING, message: m.to_string(), states: None };
+        let doc = GuestProxyAgentAggregateStatus {
+            timestamp: misc_helpers::get_date_time_string(),
+            proxyAgentStatus: ProxyAgentStatus {
+                version: version.to_string(),
+                status: OverallState::SUCCESS,
+                monitorStatus: detail("monitor"),
+                keyLatchStatus: detail("key latch"),
+                ebpfProgramStatus: detail("ebpf"),
+                proxyListenerStatus: detail("listener"),
+                telemetryLoggerStatus: detail("telemetry"),
+                proxyConnectionsCount: 3,
+            },
+            proxyConnectionSummary: vec![],
+            failedAuthenticateSummary: vec![],
+        };
+        serde_json::to_string(&doc).unwrap()
+    }
+
+    impl World {
+        pub fn new() -> World {
+            let work = std::env::temp_dir().join(format!("vxw_c20_{}", std::process::id()));
+            let _ = fs::remove_dir_all(&work);
+            let status_dir = work.join("status");
+            let agg_dir = work.join("agent_log_folder");
+            fs::create_dir_all(&status_dir).unwrap();
+            fs::create_dir_all(&agg_dir).unwrap();
+            let mut w = World { work, status_dir, agg_file: None, mounted_on: None, agg_now: None, spawned: [0; 3], run_restore_purge: !common::setup_tool_exe_path().exists(), unread: 0 };
+            // a private mount namespace for this thread, the agent's log folder replaced by an empty temp folder
+            let folder = PathBuf::from(PROXY_AGENT_AGGREGATE_STATUS_FOLDER);
+            let mut at: &Path = &folder;
+            while !at.is_dir() {
+                match at.parent() {
+                    Some(p) => at = p,
+                    None => break,
+                }
+            }
+            if unsafe { geteuid() } != 0 || !at.is_dir() || at == Path::new("/") {
+                println!("VXW-NOTE C20 published status: no private mount namespace (needs root); the agent status file cases run through extension_substatus directly, missing/unreadable file not exercised");
+                return w;
+            }
+            let (none, slash) = (CString::new("none").unwrap(), CString::new("/").unwrap());
+            let private = unsafe { unshare(0x0002_0000) == 0 && mount(none.as_ptr(), slash.as_ptr(), std::ptr::null(), 16384 | (1 << 18), std::ptr::null()) == 0 };
+            if !private {
+                println!("VXW-NOTE C20 published status: could not enter a private mount namespace; the agent status file cases run through extension_substatus directly, missing/unreadable file not exercised");
+                return w;
+            }
+            let (src, tgt) = (cstr(&agg_dir), cstr(at));
+            if unsafe { mount(src.as_ptr(), tgt.as_ptr(), std::ptr::null(), 4096, std::ptr::null()) } != 0 {
+                println!("VXW-NOTE C20 published status: bind mount over {} failed; agent status file cases run through extension_substatus directly", at.display());
+                return w;
+            }
+            w.mounted_on = Some(tgt);
+            // only go on when the folder the extension reads really is the temp folder now
+            let _ = fs::create_dir_all(&folder);
+            let rel = folder.strip_prefix(at).unwrap_or(Path::new(""));
+            let _ = fs::write(agg_dir.join(rel).join("vxw_marker"), b"x");
+            if folder.join("vxw_marker").exists() && fs::read_dir(&folder).map(|d| d.count()).unwrap_or(0) == 1 {
+                w.agg_file = Some(folder.join(PROXY_AGENT_AGGREGATE_STATUS_FILE_NAME));
+            } else {
+                println!("VXW-NOTE C20 published status: the bind mount is not in effect; agent status file cases run through extension_substatus directly");
+            }
+            w
+        }
+
+        pub fn via_file(&self) -> bool {
+            self.agg_file.is_some()
+        }
+
+        pub fn close(&mut self) {
+            if let Some(t) = self.mounted_on.take() {
+                unsafe {
+                    umount2(t.as_ptr(), 2);
+                }
+            }
+            let _ = fs::remove_dir_all(&self.work);
+        }
+
+        fn set_agg(&mut self, o: Obs) {
+            if self.agg_now == Some(o) {
+                return;
+            }
+            if let Some(f) = self.agg_file.as_ref() {
+                match o {
+                    Obs::AggMissing => {
+                        let _ = fs::remove_file(f);
+                    }
+                    Obs::AggUnreadable => fs::write(f, b"{\"timestamp\": \"2024-01-01T00:00:00Z\", \"proxyAgentStatus\": {\"version\": ").unwrap(),
+                    Obs::AggOtherVersion => fs::write(f, aggregate_doc("1.0.29")).unwrap(),
+                    _ => fs::write(f, aggregate_doc(VERSION_IN_EXTENSION)).unwrap(),
+                }
+            }
+            self.agg_now = Some(o);
+        }
+
+        // what Command::output() gave the monitor loop: from real child processes at first, then values of the same shape
+        fn output(&mut self, o: Obs) -> std::io::Result<std::process::Output> {
+            use std::os::unix::process::ExitStatusExt;
+            let idx = match o {
+                Obs::InstallExit0 => 0,
+                Obs::InstallExit3 => 1,
+                _ => 2,
+            };
+            self.spawned[idx] += 1;
+            let real = self.spawned[idx] <= 40;
+            match o {
+                Obs::InstallExit0 if real => std::process::Command::new("/bin/sh").args(["-c", "echo installed; exit 0"]).output(),
+                Obs::InstallExit3 if real => std::process::Command::new("/bin/sh").args(["-c", "echo failed >&2; exit 3"]).output(),
+                Obs::InstallExit0 => Ok(std::process::Output { status: std::process::ExitStatus::from_raw(0), stdout: b"installed\n".to_vec(), stderr: Vec::new() }),
+                Obs::InstallExit3 => Ok(std::process::Output { status: std::process::ExitStatus::from_raw(3 << 8), stdout: Vec::new(), stderr: b"failed\n".to_vec() }),
+                _ if real => std::process::Command::new(self.work.join("ProxyAgent").join("proxy_agent_setup")).arg("install").output(),
+                _ => Err(std::io::Error::from_raw_os_error(if self.spawned[idx] % 2 == 0 { 2 } else { 13 })),
+            }
+        }
+    }
+
+    fn initial_status() -> StatusObj {
+        StatusObj {
+            name: constants::PLUGIN_NAME.to_string(),
+            operation: constants::ENABLE_OPERATION.to_string(),
+            configurationAppliedTime: misc_helpers::get_date_time_string(),
+            code: constants::STATUS_CODE_OK,
+            status: constants::SUCCESS_STATUS.to_string(),
+            formattedMessage: FormattedMessage { lang: constants::LANG_EN_US.to_string(), message: "Update Proxy Agent command output successfully".to_string() },
+            substatus: Default::default(),
+        }
+    }
+
+    /// false: the sequence needs an observation kind that cannot be produced here
+    pub fn run(ctx: &mut Ctx, w: &mut World, seq: &[Obs]) -> bool {
+        if !w.via_file() && seq.iter().any(|o| matches!(o, Obs::AggMissing | Obs::AggUnreadable)) {
+            return false;
+        }
+        ctx.cases += 1;
+        let version = VERSION_IN_EXTENSION.to_string();
+        let mut status = initial_status();
+        let mut st = common::StatusState::new();
+        let mut service_state = ServiceState::default();
+        let mut restored_in_error = !w.run_restore_purge;
+        let mut seq_no = 0u32;
+        let (mut tf, mut ts) = (0u64, 0u64);
+        for (i, o) in seq.iter().enumerate() {
+            if o.healthy() {
+                ts += 1;
+                tf = 0;
+            } else {
+                tf += 1;
+                ts = 0;
+            }
+            if o.install() {
+                seq_no += 1; // the setup tool is run when a new configuration sequence number arrives
+            }
+            let file = w.status_dir.join(format!("{}.status", seq_no));
+            let _ = fs::remove_file(&file);
+            if o.install() {
+                let output = w.output(*o);
+                super::super::report_proxy_agent_service_status(output, w.status_dir.clone(), &seq_no.to_string(), &mut status, &mut st);
+            } else {
+                w.set_agg(*o);
+                if w.via_file() {
+                    super::super::report_proxy_agent_aggregate_status(&version, &mut status, &mut st, &mut restored_in_error, &mut service_state);
+                } else {
+                    let doc: GuestProxyAgentAggregateStatus = serde_json::from_str(&aggregate_doc(if *o == Obs::AggMatch { VERSION_IN_EXTENSION } else { "1.0.29" })).unwrap();
+                    super::super::extension_substatus(doc, &version, &mut status, &mut st, &mut service_state);
+                }
+                // the monitor loop publishes the status object at the end of every iteration
+                common::report_status(w.status_dir.clone(), &seq_no.to_string(), &status);
+            }
+            let published = match fs::read_to_string(&file).map_err(|e| e.to_string()).and_then(|t| serde_json::from_str::<Vec<TopLevelStatus>>(&t).map_err(|e| e.to_string())) {
+                Ok(v) if v.len() == 1 => v[0].status.status.clone(),
+                _ => {
+                    w.unread += 1;
+                    continue;
+                }
+            };
+            if is_error(&published) && tf < 20 {
+                ctx.fail(format!(
+                    "{{\"what\":\"status published in {}.status (real report_proxy_agent_service_status / report_proxy_agent_aggregate_status, fresh StatusState)\",\"observations\":\"{}\",\"step\":{},\"got\":\"{}\",\"want\":\"not Error: only {} consecutive failed observations (need >= 20){}\"}}",
+                    seq_no, render(seq, i), i + 1, published, tf, if o.healthy() { ", and the last observation was a success" } else if tf == 1 && i > 0 { ", directly after a success" } else { "" }
+                ));
+                return true;
+            }
+            if ts >= 2 && !is_success(&published) {
+                ctx.fail(format!(
+                    "{{\"what\":\"status published in {}.status (real report_proxy_agent_service_status / report_proxy_agent_aggregate_status, fresh StatusState)\",\"observations\":\"{}\",\"step\":{},\"got\":\"{}\",\"want\":\"Success after two consecutive successful observations\"}}",
+                    seq_no, render(seq, i), i + 1, published
+                ));
+                return true;
+            }
+        }
+        true
+    }
+}
+
+#[test]
+fn vxw_c20_published_status() {
+    use published::{Obs, World, ALL, FAILED};
+    let mut ctx = Ctx { cases: 0, fails: 0 };
+    let mut w = World::new();
+    let ok = Obs::AggMatch;
+
+    // (1) every sequence of 3 observations over the 7 kinds, every sequence of 5 over 4 of them (every prefix checked)
+    for n in 0..7usize.pow(3) {
+        let mut x = n;
+        let mut seq = Vec::new();
+        for _ in 0..3 {
+            seq.push(ALL[x % 7]);
+            x /= 7;
+        }
+        published::run(&mut ctx, &mut w, &seq);
+    }
+    let four = [Obs::InstallNotLaunched, Obs::InstallExit0, Obs::AggMissing, ok];
+    for n in 0..4usize.pow(5) {
+        let mut x = n;
+        let mut seq = Vec::new();
+        for _ in 0..5 {
+            seq.push(four[x % 4]);
+            x /= 4;
+        }
+        published::run(&mut ctx, &mut w, &seq);
+    }
+
+    // (2) around the threshold: prefix ++ k failed observations (k = 19, 20, 21; one kind, mixed kinds, an install report first /
+    //     last / every fifth) ++ suffix
+    let prefixes: Vec<Vec<Obs>> = vec![vec![], vec![ok, ok], vec![Obs::AggMissing, ok]];
+    let suffixes: Vec<Vec<Obs>> = vec![
+        vec![], vec![ok, ok], vec![Obs::InstallNotLaunched], vec![ok, Obs::InstallNotLaunched], vec![ok, ok, Obs::InstallNotLaunched, ok],
+        vec![ok, Obs::AggUnreadable, ok, ok, Obs::InstallExit3],
+    ];
+    for k in [19usize, 20, 21] {
+        let mut runs: Vec<Vec<Obs>> = Vec::new();
+        for f in [Obs::InstallNotLaunched, Obs::AggMissing, Obs::AggOtherVersion] {
+            runs.push(vec![f; k]);
+        }
+        runs.push((0..k).map(|i| FAILED[i % 6]).collect());
+        let mut r = vec![Obs::AggOtherVersion; k];
+        r[k - 1] = Obs::InstallNotLaunched;
+        runs.push(r);
+        let mut r = vec![Obs::AggMissing; k];
+        r[0] = Obs::InstallNotLaunched;
+        runs.push(r);
+        runs.push((0..k).map(|i| if i % 5 == 0 { [Obs::InstallExit0, Obs::InstallExit3, Obs::InstallNotLaunched][(i / 5) % 3] } else { Obs::AggOtherVersion }).collect());
+        for p in prefixes.iter() {
+            for r in runs.iter() {
+                for s in suffixes.iter() {
+                    let mut seq = p.clone();
+                    seq.extend(r.iter());
+                    seq.extend(s.iter());
+                    published::run(&mut ctx, &mut w, &seq);
+                }
+            }
+        }
+    }
+    if w.unread > 0 {
+        println!("VXW-NOTE C20 published status: {} steps left no readable <seq>.status file (not checked)", w.unread);
+    }
+    w.close();
     println!("VXW-DONE {}", ctx.cases);
 }
